@@ -655,6 +655,10 @@ Loop:
 				if !ok {
 					return d.newError(tok.Pos(), "invalid %v field value: %v", genid.Any_TypeUrl_field_fullname, tok.RawString())
 				}
+				if !utf8.ValidString(typeURL) {
+					// The field is a proto3 string.
+					return d.newError(tok.Pos(), "contains invalid UTF-8")
+				}
 				seenTypeUrl = true
 
 			case genid.Any_Value_field_name:
